@@ -138,6 +138,8 @@ func (e *c01env) certDER(class string) []byte {
 		return e.m.EvilSelf.Raw
 	case "evil_chain":
 		return e.m.EvilLeaf.Raw
+	case "webca_issued":
+		return e.m.WebLeaf.Raw
 	case "genuine_critext":
 		return e.m.SignCertCrit.Raw
 	case "self_signed_evil_critext":
@@ -148,7 +150,7 @@ func (e *c01env) certDER(class string) []byte {
 	return nil
 }
 func (e *c01env) certKey(class string) *rsa.PrivateKey {
-	if strings.HasPrefix(class, "self_signed_evil") || strings.HasPrefix(class, "evil_chain") {
+	if strings.HasPrefix(class, "self_signed_evil") || strings.HasPrefix(class, "evil_chain") || class == "webca_issued" {
 		return e.m.E
 	}
 	return e.m.S
@@ -171,7 +173,7 @@ func (e *c01env) build() {
 		garbageSig[i] = byte(i*7 + 3)
 	}
 	for _, cert := range []string{"genuine", "genuine_pkcs1issued", "genuine_sha384issued", "absent", "garbage", "self_signed_evil", "evil_chain",
-		"genuine_critext", "self_signed_evil_critext", "evil_chain_critext"} {
+		"genuine_critext", "self_signed_evil_critext", "evil_chain_critext", "webca_issued"} {
 		for _, prov := range []string{"old_none", "new_none", "new_clspec", "new_commit"} {
 			gs := GoldenSpec{Snp: map[uint32][]byte{2: e.snpMeas}, Tdx: []*epb.VMTdx_Measurement{{Mrtd: m.Mrtd}}, Digest: Meas("fw"), Cert: e.certDER(cert), Svn: 1}
 			switch prov {
